@@ -13,17 +13,25 @@ import (
 	"github.com/ipfs/boxo/verifshim/vexp"
 )
 
-func seqConfigs(thorough bool) []config {
-	var out []config
-	for _, L := range []int{1, 2, 3} {
-		out = append(out, config{L: L, R: 16, T: 44}, config{L: L, R: 0, T: 1})
+// seqPlans: configurations of the sequential exploration and their depth bounds.
+func seqPlans(thorough bool) []seqPlan {
+	var out []seqPlan
+	d := 3
+	if thorough {
+		d = 4
 	}
-	out = append(out, config{L: 2, R: 16, T: 44, Zero: true})
+	for _, L := range []int{1, 2, 3} {
+		out = append(out, seqPlan{config{L: L, R: 16, T: 44}, d}, seqPlan{config{L: L, R: 0, T: 1}, d})
+	}
+	out = append(out, seqPlan{config{L: 2, R: 16, T: 44, Zero: true}, d + 1})
+	// one configuration one level deeper
+	out[2].depth = d + 1 // L2-r16-t44
 	if thorough {
 		for _, L := range []int{1, 2, 3} {
-			out = append(out, config{L: L, R: 16, T: 1, Tie: 1}, config{L: L, R: 0, T: 44, Tie: 1})
+			out = append(out, seqPlan{config{L: L, R: 16, T: 1, Tie: 1}, 4}, seqPlan{config{L: L, R: 0, T: 44, Tie: 1}, 4})
 		}
-		out = append(out, config{L: 1, R: 0, T: 1, Zero: true})
+		out = append(out, seqPlan{config{L: 1, R: 0, T: 1, Zero: true}, 5})
+		out = append(out, seqPlan{config{L: 2, R: 16, T: 44, Wide: true, Tie: 1}, 4}, seqPlan{config{L: 3, R: 0, T: 1, Wide: true}, 4})
 	}
 	return out
 }
@@ -61,15 +69,19 @@ func main() {
 		r.Assume("vsched models channels, select, sync and timers faithfully; the in-memory blockstore is synchronous")
 		r.Assume("the order of Wantlist() entries of a message (a Go map iteration in the real type) is fixed to wire order by a wrapper; the orders that matter are separate menu entries")
 		r.Assume("overlapping concurrent calls may take effect in either order")
-		depth := eng.Pick(r, 4, 5)
+		plans := seqPlans(r.Thorough())
 		if os.Getenv("VERIF_C36_DEPTH") != "" {
+			var depth int
 			fmt.Sscan(os.Getenv("VERIF_C36_DEPTH"), &depth)
+			for i := range plans {
+				plans[i].depth = depth
+			}
 		}
 		if os.Getenv("VERIF_C36_NOSEQ") == "" {
-			exploreSeq(r, seqConfigs(r.Thorough()), depth)
+			exploreSeq(r, plans)
 		}
 		if scs := concScenarios(); len(scs) > 0 && os.Getenv("VERIF_C36_NOCONC") == "" {
-			vexp.Explore(r, scs, vexp.Options{Bound: eng.Pick(r, 2, 3)})
+			vexp.Explore(r, scs, vexp.Options{Bound: eng.Pick(r, 1, 2), Workers: eng.Pick(r, 8, 0)})
 		}
 	}, func(r *eng.Run, raw json.RawMessage) {
 		var probe struct {
